@@ -180,6 +180,29 @@ def run_shard(sh, ctx):
 					if J.bits(got[j]) != exp:
 						ctx.violation('bulk-dist-bits', f'bulk distance via {cname}: {float(got[j])!r} expected bits {exp:#x} for s/u={su[0]}/{su[1]} (query {qdt}, references {rdt})',
 						              dict(query=q, ref=r, dtypes=[qdt, rdt], container=cname))
+			# plain Python sequences whose elements have DIFFERENT widths, the narrow ones first, a later one holding values the first
+			# width cannot represent: all-against-all and one-against-all must still be the exact ratios
+			wide = sorted({x + shift for x in rng.sample(range(0, 60), 5)} | set(rng.sample(range(0, 60), 3)))
+			msets = [refs[0], refs[min(1, len(refs) - 1)], wide, q, sorted(set(wide) | {shift * 2 + 1} if M.maxval(qdt) > shift * 2 + 1 else wide)]
+			mdts = [rdt, rdt, qdt, qdt, qdt]
+			marrs = [np.array(s_, dtype=d_) for s_, d_ in zip(msets, mdts)]
+			for cname, cont in (('mixed-width list', list(marrs)), ('mixed-width tuple', tuple(marrs)), ('mixed-width SignatureList', SignatureList(list(marrs), None))):
+				try:
+					row = gm.jaccarddist_matrix([qa], cont, chunksize=rng.choice([None, 2]))[0]
+					P = gm.jaccarddist_pairwise(cont)
+				except Exception as e:
+					ctx.violation('bulk-raises', f'{cname}: {type(e).__name__}: {e}', dict(dtypes=mdts, sets=msets)); continue
+				ctx.count(f'bulk:{cname}')
+				for j, r in enumerate(msets):
+					su = J.dist_su(set(q), set(r)); exp = J.expected_bits(*su)
+					ctx.case(('bulk-mixed', cname, qdt, rdt, q, r), nontrivial=su[1] > 0)
+					if J.bits(row[j]) != exp:
+						ctx.violation('bulk-dist-bits', f'jaccarddist_matrix on a {cname}: {float(row[j])!r} expected bits {exp:#x} for s/u={su[0]}/{su[1]} (element dtypes {mdts}, element {j})', dict(query=q, ref=r, dtypes=mdts, container=cname)); break
+					for i2, r2 in enumerate(msets):
+						su2 = J.dist_su(set(r), set(r2)); exp2 = J.expected_bits(*su2)
+						ctx.evals += 1
+						if J.bits(P[j, i2]) != exp2:
+							ctx.violation('bulk-dist-bits', f'jaccarddist_pairwise on a {cname}: cell ({j},{i2}) = {float(P[j, i2])!r} expected bits {exp2:#x} for s/u={su2[0]}/{su2[1]} (element dtypes {mdts})', dict(A=r, B=r2, dtypes=mdts, container=cname)); break
 	elif kind == 'huge':
 		n = (1 << 24) + 3
 		a = np.arange(0, n, dtype='u4')
